@@ -7,15 +7,15 @@ import sys
 from hypothesis import strategies as st
 
 from vf.core import Clause, Property, Violation
-from vf.osk import guarded, mk_model, mk_teams
+from vf.osk import guarded, mk_model, mk_teams, model_for
 from vf.predgen import pred_cases, pred_labels
 
 EPS = sys.float_info.epsilon
 FL = 16 * EPS
 
 
-def pd(cfg, teams, ctx):
-    m = mk_model(cfg)
+def pd(cfg, teams, ctx, case=None):
+    m = model_for(cfg, case or {})
     ctx.called()
     return guarded(m.predict_draw, mk_teams(m, teams), what="predict_draw")
 
@@ -25,7 +25,7 @@ def check_c10(case, ctx):
     kind = cfg["kind"]
     beta = cfg["beta"]
     n = len(teams)
-    d = pd(cfg, teams, ctx)
+    d = pd(cfg, teams, ctx, case)  # the base call: on a model that may have been through a failed call (prelude)
     for lab in pred_labels(case):
         ctx.label(lab)
     if not (isinstance(d, (int, float)) and not isinstance(d, bool) and math.isfinite(d) and -1e-12 <= d <= 1 + 1e-12):
